@@ -46,8 +46,12 @@ Definition blank_lines (f:string) : list string :=
 """
 
 
+MONITOR_ONLY = {}
+
+
 def candidates(H, year, overrides):
     out = []
+    MONITOR_ONLY[year] = []
     stats = {'widgets_with_arithmetic_words': 0, 'parsed': 0, 'overridden': 0}
     for cls in H['forms'].available_forms[year]:
         obj = cls(instance=gen_forms.instances_of(cls)[0])
@@ -87,6 +91,10 @@ def candidates(H, year, overrides):
                 continue
             seen.add(pf.field_name)
             stats['parsed'] += 1
+            if not instr.has_coq_term(term):
+                MONITOR_ONLY.setdefault(year, []).append({'form': cls.form_name, 'line': pf.field_name, 'term': term, 'text': sp[:200]})
+                stats['parsed_but_only_compared_on_real_returns'] = stats.get('parsed_but_only_compared_on_real_returns', 0) + 1
+                continue
             out.append({'form': cls.form_name, 'line': pf.field_name, 'term': term, 'text': sp[:200], 'obj': obj})
     return out, stats
 
@@ -451,6 +459,35 @@ def run(tier, seed):
         r = scenarios.run_scenario(H, year, forms, sseed, prof)
         if r['exc'] is None:
             results.append((year, r))
+    # every parsed instruction (whatever the shape of the body) against the values of REAL solved returns
+    n_cmp = 0
+    for (year, r) in results:
+        if not r['ok'] or year not in per_year:
+            continue
+        vals = r['solver']._v.values
+        for c in list(per_year[year]) + MONITOR_ONLY.get(year, []):
+            key = '%s.%s' % (c['form'], c['line'])
+            if key not in vals or not isinstance(vals[key], float):
+                continue
+            env = {}
+            ok_env = True
+            for n in instr.lines_of(c['term']):
+                v = vals.get('%s.%s' % (c['form'], n))
+                if isinstance(v, bool) or not isinstance(v, (int, float)):
+                    ok_env = False
+                    break
+                env[n] = Fraction(repr(float(v)))
+            if not ok_env:
+                continue
+            want = instr.evaluate(c['term'], env)
+            n_cmp += 1
+            if abs(Fraction(repr(vals[key])) - want) > Fraction(1, 100) + Fraction(1, 10 ** 6):
+                ck.violation('C02:%d:%s' % (year, key),
+                             'ty%d %s line %s is %r in a solved return where the instruction "%s" gives %s' % (year, c['form'], c['line'], vals[key], c['text'][:90], float(want)),
+                             {'kind': 'failing-input', 'year': year, 'form': c['form'], 'line': c['line'], 'instruction_text': c['text'],
+                              'instruction_term': list(c['term']), 'line_values': {k_: float(v_) for k_, v_ in env.items()}, 'observed': vals[key], 'expected': float(want),
+                              'inputs': [(a_[0], a_[1]) for a_ in r['policy'].asked][:400]}, found=True)
+    ck.cov['instruction_vs_real_returns'] = {'comparisons': n_cmp, 'instructions_compared_only_this_way': {str(y): len(v) for y, v in MONITOR_ONLY.items()}}
     catalog.validate(ck, H, summ, results)
     if per_year.get(2023):
         c = per_year[2023][0]
